@@ -12,7 +12,7 @@ type GenOpts struct {
 	MaxFields  int
 	MaxItems   int
 	Mutation   bool
-	RootFields int // 0 = random
+	RootFields int  // 0 = random
 	NoAbstract bool // never declare a position with an interface or union type
 }
 
